@@ -41,7 +41,42 @@ from srctools import AtomicWriter  # noqa: E402
 from srctools.bsp import BSP, BSP_LUMPS  # noqa: E402
 
 UNIT = 600            # bytes per body write in TLC schedules (well below any io buffer size)
-TMP_RE = re.compile(r'^tmp_(\d+)$')
+_PROBED: dict = {}
+
+
+def probe_names(dest_base: str, text: bool) -> list:
+    """The names AtomicWriter gives its temporary file for a destination called dest_base when nothing,
+    one, two files are in the way (observed in a scratch directory, not hooked).  Missing ranks (the
+    writer creates no new file) fall back to tmp_1, tmp_2, tmp_3."""
+    key = (dest_base, text)
+    if key not in _PROBED:
+        names: list = []
+        d = tempfile.mkdtemp(prefix='c12probe_')
+        try:
+            for _ in range(3):
+                before = set(os.listdir(d))
+                try:
+                    f = AtomicWriter(os.path.join(d, dest_base), is_bytes=not text).__enter__()
+                    f.close()
+                except Exception:       # noqa: BLE001
+                    break
+                new = set(os.listdir(d)) - before - {dest_base}
+                if len(new) != 1:
+                    break
+                names.append(new.pop())
+        finally:
+            shutil.rmtree(d, ignore_errors=True)
+        for k in range(len(names), 3):
+            cand = f'tmp_{k + 1}'
+            names.append(cand if cand not in names else f'tmp_x{k + 1}')
+        _PROBED[key] = names
+    return _PROBED[key]
+
+
+def naming_deterministic() -> bool:
+    a = list(probe_names('dest_w1.bin', False))
+    _PROBED.pop(('dest_w1.bin', False))
+    return a == probe_names('dest_w1.bin', False)
 _REAL = {'open': io.open, 'mkdir': os.mkdir, 'replace': os.replace, 'rename': os.rename,
          'unlink': os.unlink, 'remove': os.remove}
 _tls = threading.local()
@@ -261,6 +296,15 @@ class Run:
         self.count = 0
         self.bodies = bodies or {}
         self.dest = {w: os.path.join(self.ddir, f'dest_{w}.bin') for w in writers}
+        self.dest_names = {os.path.basename(p) for p in self.dest.values()}
+        self.ids: dict = {}
+        text = kind == 'aw-text'
+        ranks = [probe_names(os.path.basename(self.dest[w]), text) for w in writers]
+        for k in range(3):                     # rank k+1 of the first writer is name number k+1
+            for names in ranks:
+                if names[k] not in self.ids:
+                    self.ids[names[k]] = max(self.ids.values(), default=0) + 1
+        self.rank_names = ranks[0]
         self.old = {}
         self.new = {}
         self.new2: dict = {}        # complete contents of a writer's second round (re-used writer object)
@@ -283,10 +327,19 @@ class Run:
             return False
 
     def tmp_index(self, p: str) -> int:
+        """The number of a file name by its ROLE: 0 = a destination or a file outside the destination's
+        directory; every other name in that directory gets a number >= 1 (the names the writer was seen to
+        try first, second, ... in a probe run get 1, 2, ...; unknown names the next free numbers)."""
         if os.path.dirname(os.path.abspath(p)) != self.ddir:
             return 0
-        m = TMP_RE.match(os.path.basename(p))
-        return int(m.group(1)) if m else 0
+        bn = os.path.basename(p)
+        if bn in self.dest_names:
+            return 0
+        if bn not in self.ids:
+            self.ids[bn] = max(self.ids.values(), default=0) + 1
+            if self.logfd is not None:          # tell the parent process which number the name got
+                os.write(self.logfd, (json.dumps({'op': '_id', 'name': bn, 'id': self.ids[bn]}) + '\n').encode())
+        return self.ids[bn]
 
     def setup(self) -> None:
         os.makedirs(self.root)
@@ -296,8 +349,9 @@ class Run:
             if self.init['orig'][w] == 'old':
                 with _REAL['open'](self.dest[w], 'wb') as f:
                     f.write(self.old[w])
+        # files lying around under the names the writer would pick first, second, ... (learnt by probing)
         for k in self.init['stale']:
-            with _REAL['open'](os.path.join(self.ddir, f'tmp_{k}'), 'wb') as f:
+            with _REAL['open'](os.path.join(self.ddir, self.rank_names[k - 1]), 'wb') as f:
                 f.write(b'stale temp file of an earlier process\n')
 
     def ls(self) -> dict:
@@ -327,11 +381,8 @@ class Run:
         tmp = []
         other = []
         for nm in names:
-            m = TMP_RE.match(nm)
-            if m:
-                tmp.append([int(m.group(1)), os.stat(os.path.join(self.ddir, nm)).st_size > 0])
-            elif nm not in known:
-                other.append(nm)
+            if nm not in known:
+                tmp.append([self.tmp_index(os.path.join(self.ddir, nm)), os.stat(os.path.join(self.ddir, nm)).st_size > 0])
         tmp.sort()
         return {'dir': True, 'd': d, 'tmp': tmp, 'other': other}
 
@@ -361,17 +412,19 @@ class Run:
         if self.ptr >= len(self.path):
             return 'go'
         e = self.path[self.ptr]
-        # a raw write of the schedule that the io stack does not perform here (it does not retry a
-        # failed flush, say): drop it, so that the rest of the schedule stays aligned
-        while (e['w'] == w and e['op'] == 'write' and e['res'] == 'ok' and op not in ('write', 'bcall')
-               and self.ptr + 1 < len(self.path)):
+        # steps of the schedule that do not happen in this run - a raw write the io stack does not repeat,
+        # an attempt at a temp name that was not needed because no file was in the way - are dropped, so
+        # that the rest of the schedule stays aligned with the writer's boundaries
+        def optional(ev):
+            return (ev['op'] == 'write' and ev['res'] == 'ok') or (ev['op'] == 'open' and ev['res'] in ('ok', 'exists'))
+        while e['w'] == w and optional(e) and e['op'] != op and self.ptr + 1 < len(self.path):
             self.ptr += 1
             e = self.path[self.ptr]
         if e['w'] != w:
             # the scheduled writer must be on its way to a boundary, otherwise nobody could move
             return None
-        if e['op'] != op and op in ('write', 'bcall') and e['op'] != 'crash':
-            return 'go'         # an extra step of the io stack: do not consume the schedule
+        if e['op'] != op and op in ('write', 'bcall', 'open') and e['op'] != 'crash':
+            return 'go'         # an extra step of this run: do not consume the schedule
         self.ptr += 1
         if e['op'] == 'crash':
             return 'crash'
@@ -484,6 +537,10 @@ class Run:
                 raise RuntimeError(f'child failed with status {os.WEXITSTATUS(status)}')
             with _REAL['open'](logp, encoding='utf-8') as f:
                 evs = [json.loads(ln) for ln in f if ln.strip()]
+            for e in evs:
+                if e['op'] == '_id':
+                    self.ids[e['name']] = e['id']
+            evs = [e for e in evs if e['op'] != '_id']
         evs.append({'w': '', 'op': 'post', 'res': 'ok', 'n': 0, 'i': 0, 'ls': self.ls()})
         return evs
 
@@ -814,7 +871,8 @@ def main() -> None:
                 t += 1
                 out.write(run_scenario(base, name, hlib.seed(), None, t))
             out.close()
-            print(json.dumps({'runs': t}))
+            print(json.dumps({'runs': t, 'naming_deterministic': naming_deterministic(),
+                              'first_names': probe_names('dest_w1.bin', False)}))
         elif mode == 'inject':
             refs = [json.loads(ln) for ln in open(sys.argv[2]) if ln.strip()]
             with open(sys.argv[3]) as f:
